@@ -145,6 +145,8 @@ var nodeIDs = []string{"n1", "n2", "n3", "n4"}
 func alphabet(tier string) []string {
 	a := []string{
 		"regnode n1", "regnode n2", "regnode n3", "regnode n4",
+		// an id re-registered with a node of another type: later registrations are judged by the type it has now
+		"regnodeas n3 F", "regnodeas n2 F",
 		"regnode n2 deny", "regnode - ", "regnode n1 bogus", "regnode n1 empty",
 		"regpipe t1 p1 n2,n3", "regpipe t1 p1 n1,n2,n3", "regpipe t1 p2 n2,n4 deny", "regpipe t2 p1 n2,n3",
 		"regpipe t1 p1 n3", "regpipe t1 p1 n2,n1", "regpipe t1 p1 n1,n3", "regpipe t1 p1 n2,n9", "regpipe t1 p1 n2,-", "regpipe t1 p1 -",
